@@ -305,7 +305,7 @@ func regionClass(reg string) string {
 
 var mutKinds = []string{"valid", "msg-other", "msg-append", "msg-truncate", "msg-tail-flip", "msg-tail-flip", "flip-sig", "other-key", "other-key-same-seed-other-hash",
 	"other-index-rewritten", "auth-of-other-index", "index-plus-2^h", "index-high-bits", "truncate-32", "extend-32", "pad-to-other-height",
-	"resplit-sig-msg", "resplit-sig-msg", "swap-wots-blocks", "zero-wots-block", "advance-wots-chain", "garbage", "root-pubseed-swapped", "sig-for-other-height-key"}
+	"resplit-sig-msg", "resplit-sig-msg", "pk-field-in-signature", "pk-field-in-signature", "swap-wots-blocks", "zero-wots-block", "advance-wots-chain", "garbage", "root-pubseed-swapped", "sig-for-other-height-key"}
 
 func TestMutators(t *testing.T) {
 	r := ev.New(t, prop, "TestMutators")
@@ -359,6 +359,32 @@ func TestMutators(t *testing.T) {
 				c.Msg = flip(msg, pos*8+rapid.IntRange(0, 7).Draw(rt, "bit"))
 				detail = fmt.Sprintf("message bit flipped at byte %d of %d", pos, len(msg))
 			}
+		case "pk-field-in-signature":
+			// a forger knows the public key: its root / public seed are copied into a signature slot (R, a WOTS
+			// block, an authentication node - the LAST one in half of the cases), the rest is the genuine signature
+			// or filler, and the index field gets bits at and around the tree height set
+			s := append([]byte{}, sig...)
+			if rapid.Bool().Draw(rt, "filler") {
+				copy(s[4:], pu.DetBytes(rapid.Uint64().Draw(rt, "fill"), len(s)-4))
+			}
+			field := b.pk[3:35]
+			if rapid.IntRange(0, 3).Draw(rt, "seedNotRoot") == 0 {
+				field = b.pk[35:67]
+			}
+			slot := len(s) - 32
+			switch rapid.IntRange(0, 3).Draw(rt, "slot") {
+			case 0:
+				slot = 4
+			case 1:
+				slot = 36 + 32*rapid.IntRange(0, 66).Draw(rt, "block")
+			case 2:
+				slot = 2180 + 32*rapid.IntRange(0, h-1).Draw(rt, "node")
+			}
+			copy(s[slot:], field)
+			hi := uint32(rapid.IntRange(1, 7).Draw(rt, "highBits")) << uint(h-1) // bits h-1, h, h+1
+			binary.BigEndian.PutUint32(s, idx|hi|uint32(rapid.IntRange(0, 1).Draw(rt, "top"))<<31)
+			c.Sig = s
+			detail = fmt.Sprintf("pk field copied to signature offset %d, index field %#x", slot, binary.BigEndian.Uint32(s))
 		case "resplit-sig-msg":
 			// the SAME bytes, split differently: the head of the message is moved onto the end of the signature
 			// (or the tail of the signature onto the front of the message)
